@@ -374,6 +374,7 @@ func (rn *c15Runner) run(k int, seed uint64, c *c15Case) {
 		}
 		panics0 := rn.env.Panics.Load()
 		pan := func() string {
+			rn.env.Settle(5 * time.Second)
 			if rn.env.Panics.Load() != panics0 {
 				return " panic"
 			}
